@@ -9,7 +9,8 @@ MCPool == { S("F", {"A"}, TRUE,  0, FALSE, FALSE),      \* filter without emit
             S("W", {"A"}, FALSE, 2, FALSE, TRUE),       \* count window on A
             S("X", {"A"}, FALSE, 0, TRUE,  FALSE),      \* .process() without .emit()
             S("Y", {"X"}, TRUE,  0, FALSE, TRUE),       \* consumer of the .process() stream
-            S("H", {"B"}, FALSE, 0, FALSE, TRUE) }
+            S("H", {"B"}, FALSE, 0, FALSE, TRUE),
+            S("N", {"A", "B"}, TRUE, 0, FALSE, TRUE) }  \* merge whose BRANCHES carry the filter, written with a user function (rendered so by the harness)
 Emit == PrintT(<<"CASE", ToJson([prog |-> prog, es |-> es, mask |-> mask, k |-> kk, j |-> jj,
                   split1 |-> IF kk = Len(prog) THEN <<>> ELSE SplitAt(Es1, 1, mask, <<>>),
                   split |-> IF kk = Len(prog) THEN SplitAt(es, 1, mask, <<>>) ELSE SplitAt(Es2, 1, mask, <<>>),
